@@ -546,6 +546,70 @@ async fn scenario_timing(scn: u64, c: &Value) -> Value {
          "detail": format!("stalled_runs={stalled_runs} (stopped after {stalled_at:?} accepts) ops={} monitor=[{}]", last.1, last.2)})
 }
 
+/// Scenario 15: the peer of an outbound connection accepts, reads what the socket sends, writes `pre` bytes of a
+/// greeting (0 = nothing at all) and then closes ORDERLY (FIN, no reset) before the handshake completes - a port
+/// forwarder with a dead backend. The listener disappears; later a real PULL binds the same port: the connection
+/// must be retried and traffic must resume. Row: [15, resumed, socket_still_answers].
+async fn scenario_silent_fin(scn: u64, c: &Value) -> Value {
+  use tokio::io::{AsyncReadExt, AsyncWriteExt};
+  let pre = c["pre"].as_u64().unwrap_or(0) as usize;
+  let ctx = Context::new().expect("ctx");
+  let victim = mk(&ctx, SocketType::Push).await;
+  let _ = victim.set_option(RECONNECT_IVL, 100i32).await;
+  let _ = victim.set_option(RECONNECT_IVL_MAX, 400i32).await;
+  let _ = victim.set_option(SNDTIMEO, 100i32).await;
+  let l = TcpListener::bind("127.0.0.1:0").await.expect("raw listener");
+  let ep = format!("tcp://{}", l.local_addr().unwrap());
+  let _ = timeout(T_OP, victim.connect(&ep)).await;
+  let mut accepted = false;
+  if let Ok(Ok((mut s, _))) = timeout(Duration::from_millis(2000), l.accept()).await {
+    accepted = true;
+    let greeting: [u8; 12] = [0xFF, 0, 0, 0, 0, 0, 0, 0, 1, 0x7F, 3, 0];
+    if pre > 0 {
+      let _ = s.write_all(&greeting[..pre.min(12)]).await;
+    }
+    // drain what the socket wrote, so that closing sends FIN and not RST
+    let t = Instant::now();
+    let mut buf = [0u8; 256];
+    while t.elapsed() < Duration::from_millis(200) {
+      match timeout(Duration::from_millis(50), s.read(&mut buf)).await {
+        Ok(Ok(0)) | Ok(Err(_)) => break,
+        _ => {}
+      }
+    }
+    let _ = s.shutdown().await;
+    drop(s);
+  }
+  drop(l);
+  sleep(Duration::from_millis(300)).await;
+  let p2 = mk(&ctx, SocketType::Pull).await;
+  let mut rebound = false;
+  for _ in 0..20 {
+    if let Ok(Ok(())) = timeout(T_OP, p2.bind(&ep)).await {
+      rebound = true;
+      break;
+    }
+    sleep(Duration::from_millis(100)).await;
+  }
+  let mut resumed = false;
+  let mut sent_after = 0u64;
+  let deadline = Instant::now() + Duration::from_millis(5000);
+  while rebound && Instant::now() < deadline && !resumed {
+    if let Ok(Ok(())) = timeout(T_OP, victim.send(Msg::from_vec(sent_after.to_be_bytes().to_vec()))).await {
+      sent_after += 1;
+    }
+    if let Ok(Ok(_)) = timeout(Duration::from_millis(50), p2.recv()).await {
+      resumed = true;
+    }
+  }
+  let ops_ok = matches!(timeout(T_OP, victim.get_option(LAST_ENDPOINT)).await, Ok(Ok(_)));
+  let _ = timeout(T_OP, victim.close()).await;
+  let _ = timeout(T_OP, p2.close()).await;
+  let _ = timeout(Duration::from_millis(3000), ctx.term()).await;
+  json!({"rows": [[scn, (accepted && resumed) as u64, ops_ok as u64]],
+         "detail": format!("pre={pre} accepted={accepted} rebound={rebound} sent_after={sent_after} resumed={resumed} ops={ops_ok}")})
+}
+
 /// Scenario 21: the listener drops every connection IMMEDIATELY after accepting it. The socket must keep
 /// retrying. Row: [21, kept_retrying_in_every_run, socket_still_answers].
 async fn scenario_accept_drop(scn: u64, c: &Value) -> Value {
@@ -772,6 +836,7 @@ fn run_stack(c: &Value) -> Value {
         1..=7 | 11 | 13 | 14 => scenario_inbound(scn, n).await,
         8..=10 => scenario_outbound(scn, n).await,
         12 => scenario_resume(scn, n).await,
+        15 => scenario_silent_fin(scn, &c2).await,
         20 => scenario_timing(scn, &c2).await,
         21 => scenario_accept_drop(scn, &c2).await,
         22 => scenario_retry_intervals(scn, &c2).await,
